@@ -624,7 +624,14 @@ class Array(metaclass=MetaArray):
             ll = len(value)
             shape = get_shape_from_array(value, len(self._shape))
             fits = tuple(shape) == tuple(self._shape)
-        if fits:
+        if fits and not (self._is_static_type or is_integer(value)):
+            # items of dynamic size keep the place and space they got at
+            # creation: update them one by one
+            for idx in iter_index(
+                self._shape, mk_order(self._order, self._shape)
+            ):
+                self[idx] = _get_item(value, idx)
+        elif fits:
             self.__class__._to_buffer(self._buffer, self._offset, value)
         else:
             if is_integer(value):
